@@ -242,4 +242,69 @@ theorem atleastNd_eq_spec {α : Type} (a : Arr α) (fill : α) (nd : Nat) (ha : 
   obtain ⟨v, h1, h2, h3, h4⟩ := reshapeView_nat a fill _ hne hp ha
   exact ⟨v, h1, h2, by rw [h3, hsh], h4⟩
 
+/-- **flip = NumPy** for non-negative valid axes (on which NumPy's normalisation is the identity): same shape;
+    element `d` is read from `i` with `i[k] = n_k - 1 - d[k]` on the listed axes and `i[k] = d[k]` elsewhere -/
+theorem flip_eq_spec (src : Shape) (ax : List Int) (_hax : ∀ a ∈ ax, 0 ≤ a ∧ a < (src.length : Int)) :
+    ∃ v, flipView src (some ax) = some v ∧ v.src = src ∧ v.dst = src ∧
+      ∀ d, InShape d src → ∃ i, v.map d = some i ∧ i.length = src.length ∧
+        ∀ (k n x : Nat), src[k]? = some n → d[k]? = some x →
+          i[k]? = some (if (k : Int) ∈ ax then n - 1 - x else x) := by
+  refine ⟨_, rfl, rfl, rfl, ?_⟩
+  intro d hd
+  refine ⟨flipIdx src (some ax) d, rfl, flipGo_length _ _ _ _ hd.length_eq, ?_⟩
+  intro k n x hn hx
+  simp only [flipIdx]
+  rw [flipGo_get (some ax) 0 src d k n x hn hx]
+  congr 1
+  simp only [Nat.zero_add]
+  by_cases h : (k : Int) ∈ ax
+  · simp [h, (flipInAxis_some ax k).2 h]
+  · have : flipInAxis (some ax) k = false := by
+      cases hf : flipInAxis (some ax) k with
+      | false => rfl
+      | true => exact absurd ((flipInAxis_some ax k).1 hf) h
+    simp [h, this]
+
+/-- `flip(a, None)` reverses every axis -/
+theorem flip_all_eq_spec (src : Shape) :
+    ∃ v, flipView src none = some v ∧ v.src = src ∧ v.dst = src ∧
+      ∀ d, InShape d src → ∃ i, v.map d = some i ∧ i.length = src.length ∧
+        ∀ (k n x : Nat), src[k]? = some n → d[k]? = some x → i[k]? = some (n - 1 - x) := by
+  refine ⟨_, rfl, rfl, rfl, ?_⟩
+  intro d hd
+  refine ⟨flipIdx src none d, rfl, flipGo_length _ _ _ _ hd.length_eq, ?_⟩
+  intro k n x hn hx
+  simp only [flipIdx]
+  rw [flipGo_get none 0 src d k n x hn hx]
+  simp [flipInAxis]
+
+theorem flip_inBounds (src : Shape) (axes : Option (List Int)) (v : IxView)
+    (hv : flipView src axes = some v) : v.InBounds := by
+  simp only [flipView, Option.some.injEq] at hv
+  subst hv
+  intro d hd i hi
+  simp only [Option.some.injEq] at hi
+  subst hi
+  exact flipGo_inShape axes 0 src d hd
+
+/-- **flipping twice restores the array** (any axes argument) -/
+theorem flip_flip (src : Shape) (axes : Option (List Int)) :
+    ∃ v w, flipView src axes = some v ∧ flipView v.dst axes = some w ∧
+      (w.comp v).src = src ∧ (w.comp v).dst = src ∧ ∀ d, InShape d src → (w.comp v).map d = some d := by
+  refine ⟨_, _, rfl, rfl, rfl, rfl, ?_⟩
+  intro d hd
+  show (some (flipIdx src axes d)).bind (fun e => some (flipIdx src axes e)) = some d
+  simp only [Option.bind_some, Option.some.injEq, flipIdx]
+  exact flipGo_flipGo axes 0 src d hd
+
+/-- known finding: a negative axis (NumPy: `-1` = last axis) is silently ignored -/
+theorem flip_negative_axis_counterexample :
+    normalizeAxes [2,3].length [-1] = some [1] ∧
+    (flipView [2,3] (some [-1])).bind (fun v => v.map [0,0]) = some [0,0] ∧
+    (flipView [2,3] (some [1])).bind (fun v => v.map [0,0]) = some [0,2] := by decide
+
+example : ∀ a ∈ ([0,2] : List Int), 0 ≤ a ∧ a < (([2,3,4] : Shape).length : Int) := by decide
+example : (flipView [2,3,4] (some [0,2])).bind (fun v => v.map [0,1,1]) = some [1,1,2] := by decide
+example : InShape [0,1,1] [2,3,4] := by decide
+
 end NmVerif.Props.C03
